@@ -70,7 +70,8 @@ def gen(rng, tier):
     pool = name_pool()
     if tier == "quick":
         picked = rng.sample(pool, min(220, len(pool)))
-        for n in ["NIRNode", "Identity", "object", "dict", "str2NIRNode", "lif", "LIF ", "Input\x00", "nir.LIF", ""]:
+        for n in ["NIRNode", "Identity", "object", "dict", "str2NIRNode", "lif", "LIF ", "Input\x00", "nir.LIF", "", "NIR", "Graph", "NIRgraph",
+                  "nir", "NIRG", "Node", "Net", "Sequential", "Module", "Neuron", "Conv", "Pool", "Dense", "Lif", "IAF", "CUBA", "CubaLif"]:
             if n not in picked:
                 picked.append(n)
     else:
@@ -89,6 +90,11 @@ def gen(rng, tier):
             for via in ["dict2node", "graph", "file"]:
                 cases.append({"kind": "typestr", "s": nm, "like": "Scale", "bytes": False, "fields": "own", "via": via,
                               "seed": rng.randrange(2 ** 30)})
+    # names that could be (legacy / abbreviated) aliases, each tried with the fields of EVERY kind of node incl. a graph
+    for s_ in ["NIR", "Graph", "NIRgraph", "nir", "NIRG", "Node", "Net", "Sequential", "Lif", "IAF", "CUBA", "CubaLif", "Dense", "Conv", "Pool", "Identity"]:
+        for like in ["NIRGraph", "LIF", "Linear", "Conv2d", "CubaLIF", "Input"]:
+            cases.append({"kind": "typestr", "s": s_, "like": like, "bytes": False, "fields": "like", "via": rng.choice(["dict2node", "graph", "file"]),
+                          "seed": rng.randrange(2 ** 30)})
     reps = 1 if tier == "quick" else 6
     for cls in LEGAL:
         for _ in range(reps):
@@ -116,6 +122,9 @@ def gen(rng, tier):
             for kind in ["soft", "hard"]:
                 cases.append({"kind": "fields", "cls": cls, "mut": ["addlink", "zz_extra" if kind == "hard" else "alias", kind],
                               "depth": rng.choice([1, 2]), "via": "file", "seed": seed})
+    # type strings stored as RAW bytes that are not valid UTF-8 but contain / surround a primitive's name
+    for raw in [b"LIF\xff", b"\xc3LIF", b"L\xf0\x9fIF", b"\xffInput", b"Scale\x80", b"NIRGraph\xfe", b"\xe9"]:
+        cases.append({"kind": "rawtype", "raw": raw.hex(), "like": rng.choice(["LIF", "Scale", "Input"]), "depth": rng.choice([1, 2]), "seed": rng.randrange(2 ** 30)})
     # a path that held a valid file is re-used for a malformed one with the same size and time stamp (cp -p, rsync -t,
     # archive extraction, coarse-grained file systems): strictness must not depend on what was read from that path before
     for cls in (rng.sample(LEGAL, 6) if tier == "quick" else LEGAL * 2):
@@ -242,11 +251,35 @@ def run_stalepath(c):
     return Outcome(None, fail, True, sig)
 
 
+def run_rawtype(c):
+    import random
+    import nir
+    rng = random.Random(c["seed"])
+    full = wrap(valid_dict(rng, c["like"]), c["depth"])
+    bio = to_file(full, "current")
+    raw = bytes.fromhex(c["raw"])
+    with h5py.File(bio, "r+") as f:
+        grp = f["node" + "".join(f"/nodes/lvl{i}" for i in reversed(range(c["depth"])))]
+        del grp["type"]
+        grp.create_dataset("type", data=np.bytes_(raw))
+    fail = None
+    try:
+        with quiet():
+            n = nir.read(bio)
+        fail = (f"a file whose type dataset holds the raw bytes {raw!r} (not valid UTF-8, not a primitive's name) was accepted: "
+                f"returned {type(unwrap_node(n, c['depth'])).__name__}")
+    except BaseException:  # noqa: BLE001
+        pass
+    return Outcome(None, fail, True, ("rawtype", c["raw"], c["depth"]))
+
+
 def run(c):
     import random
     import nir
     if c["kind"] == "stalepath":
         return run_stalepath(c)
+    if c["kind"] == "rawtype":
+        return run_rawtype(c)
     rng = random.Random(c["seed"])
     if c["kind"] == "typestr":
         d = valid_dict(rng, c["like"])
